@@ -347,7 +347,7 @@ struct SmSession : public vw::Session {
 
   // mvtb <vparent> <w> <endorsed> <bparent|prev> <last|prev> [<w> <endorsed> <bparent|prev> <last|prev>]...
   // several honest VTBs contained in ONE VBK block (one pop tx each, in the given order). `prev` = the block of proof
-  // of the previous VTB of the list. -> "<vbk id> <btc id>..."
+  // of the previous VTB of the list, `#j` = block of proof of the j-th (0-based) VTB of the list. -> "<vbk id> <btc id>..."
   std::string mvtb(const std::vector<std::string>& t) {
     if (t.size() < 6 || (t.size() - 2) % 4 != 0) return "SKIP args";
     auto& R = *reg;
@@ -357,10 +357,16 @@ struct SmSession : public vw::Session {
     for (size_t i = 2; i + 3 < t.size(); i += 4) {
       if (R.vtb.count(t[i]) || !R.vbk.count(t[i + 1])) return "SKIP";
       const BlockIndex<BtcBlock>* bp = nullptr;
-      if (t[i + 2] == "prev") { if (bops.empty()) return "SKIP"; bp = bops.back(); }
+      auto nth = [&](const std::string& w) -> const BlockIndex<BtcBlock>* {   // "#j": block of proof of the j-th VTB of this op
+        size_t j = (size_t)std::atoi(w.c_str() + 1);
+        return j < bops.size() ? bops[j] : nullptr;
+      };
+      if (t[i + 2][0] == '#') { bp = nth(t[i + 2]); if (!bp) return "SKIP"; }
+      else if (t[i + 2] == "prev") { if (bops.empty()) return "SKIP"; bp = bops.back(); }
       else { if (!R.btc.count(t[i + 2])) return "SKIP"; bp = R.bidx(t[i + 2]); }
       BtcBlock::hash_t last;
-      if (t[i + 3] == "prev") { if (bops.empty()) return "SKIP"; last = bops.back()->getHash(); }
+      if (t[i + 3][0] == '#') { auto* x = nth(t[i + 3]); if (!x) return "SKIP"; last = x->getHash(); }
+      else if (t[i + 3] == "prev") { if (bops.empty()) return "SKIP"; last = bops.back()->getHash(); }
       else { if (!R.btc.count(t[i + 3])) return "SKIP"; last = R.btc.at(t[i + 3]).getHash(); }
       const auto& eb = R.vbk.at(t[i + 1]);
       auto btctx = R.miner.createBtcTxEndorsingVbkBlock(eb);
